@@ -729,6 +729,8 @@ func (c *specCtx) evalCall(n *ECall) Val {
 			return VInt{v.Len}
 		case VMap:
 			return VInt{c.e.mapLen(c.st, v)}
+		case VOpaque: // value of a call that did not happen on this path: its length is arbitrary too
+			return VInt{c.e.fresh("nocall", IntS)}
 		}
 		c.fail("len of non-slice")
 	case "cap":
@@ -770,6 +772,8 @@ func (c *specCtx) evalCall(n *ECall) Val {
 			return VBool{Ge(s.L.Ref, a)}
 		case VMap:
 			return VBool{Ge(s.Ref, a)}
+		case VOpaque: // value of a call that did not happen on this path
+			return VBool{c.e.fresh("nocall", BoolS)}
 		}
 		c.fail("fresh of %T", v)
 	case "allocated": // object existed before the call
@@ -840,6 +844,12 @@ func (c *specCtx) evalCall(n *ECall) Val {
 		// contents of two byte ranges are equal; with bytesEqOld the second is read in the old heap.
 		// Quantification is over the absolute element index so that triggers match.
 		a, b := c.eval(n.Args[0]), c.eval(n.Args[1])
+		if _, ok := a.(VOpaque); ok {
+			return VBool{c.e.fresh("nocall", BoolS)}
+		}
+		if _, ok := b.(VOpaque); ok {
+			return VBool{c.e.fresh("nocall", BoolS)}
+		}
 		bc := c
 		if id.Name == "bytesEqOld" {
 			bc = c.sub()
